@@ -102,13 +102,16 @@ class Ctx:
                         os.remove(os.path.join(LEAN, ".lake/build/lib/lean", rel + ext))
                     except OSError:
                         pass
-            rc, out = sh(["lake", "build", "Bng.Audit", "bngdrv"] + list(spec_modules) + list(extra_modules), cwd=LEAN)
+            # the common driver is built separately: its failure is a driver problem, not a broken proof
+            rc, out = sh(["lake", "build", "bngdrv"], cwd=LEAN)
+            if rc != 0:
+                errs = [l for l in out.splitlines() if l.startswith("error")]
+                self.broken.append(("driver", "lake build bngdrv failed: %s" % "; ".join(errs[:3])))
+            rc, out = sh(["lake", "build", "Bng.Audit"] + list(spec_modules) + list(extra_modules), cwd=LEAN)
             if rc != 0:
                 errs = [l for l in out.splitlines() if l.startswith("error")]
                 self.proof["errors"] += errs[:20] or [out[-2000:]]
                 self.broken.append(("proof", "lake build %s failed: %s" % (" ".join(spec_modules), "; ".join(errs[:3]))))
-                # the driver may still be buildable: try it alone so that the search can run
-                sh(["lake", "build", "bngdrv"], cwd=LEAN)
                 return False
             audit = os.path.join(self.scratch, "audit.lean")
             with open(audit, "w") as f:
@@ -209,7 +212,9 @@ class Ctx:
 
 
 def strip_comments(src):
+    """drop block comments, line comments and the contents of string literals (keeps line numbers)"""
     src = re.sub(r"/-.*?-/", lambda m: "\n" * m.group(0).count("\n"), src, flags=re.S)
+    src = re.sub(r'"(?:[^"\\\n]|\\.)*"', '""', src)
     return re.sub(r"--.*", "", src)
 
 
